@@ -1127,7 +1127,12 @@ class Unit:
             self.scopes.append({'vars': [], 'kind': 'block'})
             self.w(p + '{')
             ks = self.kids(n)
-            for c in ks: self.stmt(c, ind + 1)
+            top = n is getattr(self, 'body_node', None)
+            blk = 0
+            for c in ks:
+                self.stmt(c, ind + 1)
+                if top and c['kind'] == 'CompoundStmt':
+                    blk += 1; self.ghost('after_block:%d' % blk, p + '  ')   # n-th nested block of the function body (macro-expanded steps)
             if not ks or ks[-1]['kind'] not in ('ReturnStmt', 'BreakStmt', 'ContinueStmt'):
                 for d in reversed(self.scopes[-1]['vars']): self.w(p + '  ' + d)
             self.scopes.pop()
@@ -1485,6 +1490,7 @@ class Unit:
             for s in self.default_field_inits(rec, inits):
                 self.flush_expr_stmt(s, '  ')
         self.ghost('entry', '  ')
+        self.body_node = body
         self.stmt(body, 1)
         if d['kind'] == 'CXXDestructorDecl':
             self.ghost('dtor_members', '  ')
